@@ -123,7 +123,17 @@ class Target:
     """a CBMC/DFCC verification unit: one enforced contract over extracted functions"""
 
     def __init__(self, name, fns, prelude, enforce=None, replace=(), harness=None, loops=None, checks=None,
-                 source=None, note='', cbmc_flags=(), timeout=None, enforce_none=False, defines=(), unwind=None, enums=(), pre=None):
+                 source=None, note='', cbmc_flags=(), timeout=None, enforce_none=False, defines=(), unwind=None, enums=(), pre=None,
+                 dfcc=True, bound=None, nondet_exclude=()):
+        # dfcc=False: a BOUNDED target (only under `bounded=[..]` of a spec): no contract instrumentation at all, cbmc runs on the
+        # goto binary of extracted code + harness (multi-threaded harnesses with __CPROVER_ASYNC_1 / __CPROVER_atomic_begin, which
+        # DFCC does not support); loops are unwound by cbmc itself (`cbmc_flags=['--unwind', N, '--unwinding-assertions']`), so a
+        # loop that can run longer than the bound is a failed obligation.  `bound` is the human-readable bound (evidence note).
+        self.dfcc = dfcc
+        # statics left out of --nondet-static (thread-local ghost variables: goto-instrument cannot initialise them nondeterministically,
+        # cbmc then 'ignores a side effect'); the harness must assign them before use
+        self.nondet_exclude = list(nondet_exclude)
+        self.bound = bound
         self.defines = list(defines)
         # C text generated from /repo's AST (e.g. struct layouts read from class definitions, specs/C18/frame.py), emitted in
         # front of the prelude: a string or a callable returning (text, evidence dict); run inside build() so that an
@@ -243,6 +253,19 @@ class Target:
                     out.append(f'#define NV_ARG_{f.cname}_{k} {pm.group(1)}')
             for k, nm in sorted(f.printer.loop_counters.items()):
                 out.append(f'#define NV_LOOPVAR_{f.cname}_{k} {nm}')
+            for k, b in sorted(f.printer.loop_bounds.items()):
+                out.append(f'#define NV_LOOPBOUND_{f.cname}_{k} {b}')
+        # NV_LOOPBY_<c_name>_<counter>[_<n>]: a loop contract keyed by the loop's COUNTER (n-th loop with that counter, n >= 2) instead of
+        # the loop's ordinal: it follows its loop when a maintainer reorders the loops of a function (swapped if / else arms, ...)
+        for f in present:
+            seen = {}
+            for k in range(1, f.printer.loops + 1):
+                c = f.printer.loop_counters.get(k)
+                if not c or not re.fullmatch(r'\w+', c):
+                    continue
+                seen[c] = seen.get(c, 0) + 1
+                by = f'NV_LOOPBY_{f.cname}_{c}' + ('' if seen[c] == 1 else f'_{seen[c]}')
+                out.append(f'#ifdef {by}\n#undef NV_LOOP_{f.cname}_{k}\n#define NV_LOOP_{f.cname}_{k} {by}\n#endif')
         for f in present:
             out.append(f'#ifndef NV_CONTRACT_{f.cname}\n#define NV_CONTRACT_{f.cname}\n#endif')
         for m in loops:
@@ -266,8 +289,16 @@ class Target:
         # would abort on its --replace-call-with-contract: replace only callees that are called (recorded in the evidence)
         # (a call may also sit in the prelude: stubs / contract-level lemma wrappers that call a contracted function; the
         # prototype that carries the contract is itself followed by '(' so count occurrences beyond the declaration)
+        # (the prelude may be a generated top file that only #includes the spec's headers: those are searched as well)
+        ptext_all = ptext
+        for inc in re.findall(r'(?m)^#include\s+"([^"]+)"', ptext):
+            for cand in (inc, os.path.join(VERIF, inc), os.path.join(os.path.dirname(os.path.join(VERIF, self.prelude)), inc)):
+                if os.path.isabs(cand) and os.path.exists(cand):
+                    ptext_all += '\n' + open(cand).read()
+                    break
+
         def called_in_prelude(g):
-            return len(re.findall(r'\b' + re.escape(g) + r'\s*\(', ptext)) >= 2
+            return len(re.findall(r'\b' + re.escape(g) + r'\s*\(', ptext_all)) >= 2
         self.replace_used = [g for g in self.replace if any(re.search(r'\b' + re.escape(g) + r'\s*\(', t) for t in texts + [harness])
                              or any(g == f.cname for f in self.fns) or called_in_prelude(g)]
         info['contracts_not_called'] = [g for g in self.replace if g not in self.replace_used]
@@ -298,7 +329,8 @@ class Target:
         # every global (ghost state, ghost indices, witnesses) starts nondeterministic: a forgotten initialisation can
         # then never silently narrow a proof to the all-zero ghost state.  Done before DFCC adds its own statics.
         gb1 = cfile[:-2] + '.nd.gb'
-        rc, so, se, dt = run(['goto-instrument', '--nondet-static', gb, gb1], 120)
+        nd = ['--nondet-static'] if not self.nondet_exclude else [x for v in self.nondet_exclude for x in ('--nondet-static-exclude', v)]
+        rc, so, se, dt = run(['goto-instrument'] + nd + [gb, gb1], 120)
         res['seconds']['goto-instrument'] = dt
         if rc != 0:
             res.update(status='undecided', reason='goto-instrument --nondet-static failed: ' + (so + se)[-1500:])
@@ -312,6 +344,13 @@ class Target:
                 res.update(status='undecided', reason='goto-instrument --unwind failed: ' + (so + se)[-1500:])
                 return res
             gb = gbu
+        if not self.dfcc:
+            if self.enforce or self.replace:
+                res.update(status='undecided', reason='dfcc=False excludes enforce / replace (no contracts are instrumented)')
+                return res
+            cmd = ['cbmc', gb] + self.checks + ['--json-ui', '--trace', '--no-standard-checks'] + self.cbmc_flags
+            res['checker_cmd'] = ' '.join(['goto-cc … | goto-instrument --nondet-static | cbmc'] + self.checks + self.cbmc_flags) + ' (BOUNDED, no DFCC)'
+            return self._run_cbmc(cmd, res, t0, want_loops=0)
         cmd = ['goto-instrument', '--dfcc', 'main']
         if self.enforce:
             cmd += ['--enforce-contract', self.enforce]
@@ -331,6 +370,9 @@ class Target:
                                       ([f'--enforce-contract {self.enforce}'] if self.enforce else []) +
                                       [f'--replace-call-with-contract {g}' for g in self.replace_used] +
                                       ['--apply-loop-contracts |'] + ['cbmc'] + self.checks + self.cbmc_flags)
+        return self._run_cbmc(cmd, res, t0)
+
+    def _run_cbmc(self, cmd, res, t0, want_loops=None):
         rc, so, se, dt = run(cmd, self.timeout)
         res['seconds']['cbmc'] = dt
         if rc == 'timeout':
@@ -380,7 +422,7 @@ class Target:
                         pass
             res['obligations'].append(ob)
         nloops = sum(f['loops'] for f in self.info['functions'] if f['c_name'] not in self.replace)
-        want = self.loops if self.loops is not None else nloops
+        want = want_loops if want_loops is not None else (self.loops if self.loops is not None else nloops)
         res['loop_step_obligations'] = steps
         if steps < want:
             res.update(status='undecided', reason=f'{steps} loop-invariant-step obligations for {want} loops: a loop contract was dropped')
